@@ -18,6 +18,11 @@ TEXT = {
         note="Trusts the sim (incl. null pruning, status subresource semantics). Key/value alphabet of three keys and two values.",
         technique="bounded-exhaustive enumeration of inputs on the real code, independent reference model of the decorated target as oracle",
     ),
+    "C14": dict(
+        level="Bounded-exhaustive model checking of the event handlers: every watch-event shape on every object role is delivered synchronously through the controlled informer to the handlers installed by the real Start(), in every configuration; the recording queue is compared with the decision table written from the statement (required keys, forbidden keys, key round-trips through the controller's own key parser).",
+        note="Trusts the controlled informer's fan-out (real sharedEventHandler is used). Related-object over-notification is allowed (statement is one-directional there).",
+        technique="bounded-exhaustive enumeration of event shapes x roles x configurations on the real handlers (explicit-state, no sampling)",
+    ),
 }
 
 PENDING_REASON = "check not built yet in this session (planned in DESIGN.md §4); no claim is made until its check runs clean on the unchanged tree"
